@@ -29,7 +29,7 @@ EDITS = [
 
 
 def run(repo):
-    p = subprocess.run([sys.executable, os.path.join(HERE, 'main.py'), '--repo', repo, '--stdout'], capture_output=True, text=True)
+    p = subprocess.run([sys.executable, os.path.join(HERE, 'main.py'), '--repo', repo, '--stdout', 'partition'], capture_output=True, text=True)
     return p.returncode, p.stdout, p.stderr
 
 
